@@ -61,8 +61,21 @@ impl SubCheck for C17 {
         // a pool of items; every version is a subset of it, distributed over files in its own way (items move between
         // files and crates); one pool item uses `()` so that Swift's Codable.swift comes and goes
         let nver = 2usize..=4;
-        (ws::cli_items(3, 9), ws::slots(1..=3, 2..=5), nver, ws::lang_strategy(), any::<bool>(), any::<bool>())
-            .prop_flat_map(|(mut items, slots, nver, lang, folder_mode, with_unit)| {
+        (ws::cli_items(3, 9), ws::slots(1..=3, 2..=5), nver, ws::lang_strategy(), any::<bool>(), any::<bool>(), 0usize..8)
+            .prop_flat_map(|(mut items, slots, nver, lang, folder_mode, with_unit, case_pair)| {
+                // two definitions whose names differ only in letter case (`Url` / `URL`): whatever orders the definitions of
+                // an output file must not fall back on the order in which the source files happened to be parsed
+                if case_pair < 4 && !items.iter().any(|i| ["url", "uid"].contains(&i.name.to_lowercase().as_str())) {
+                    let (a, b) = [("Url", "URL"), ("UID", "Uid")][case_pair % 2];
+                    let first = Item::new(a, Kind::Struct { shape: Shape::Named(vec![Field::new("raw", Ty::Prim(Prim::String))]), rename_all: None });
+                    let second = if case_pair < 2 {
+                        Item::new(b, Kind::Struct { shape: Shape::Named(vec![Field::new("scheme", Ty::Prim(Prim::String)), Field::new("port", Ty::Prim(Prim::U16))]), rename_all: None })
+                    } else {
+                        Item::new(b, Kind::Alias { ty: Ty::Vec(Box::new(Ty::Prim(Prim::String))) })
+                    };
+                    items.push(first);
+                    items.push(second);
+                }
                 if with_unit {
                     let mut it = Item::new("UsesUnit", Kind::Struct { shape: Shape::Named(vec![Field::new("nothing", Ty::Prim(Prim::Unit)), Field::new("n", Ty::Prim(Prim::I32))]), rename_all: None });
                     it.layout = 0;
@@ -227,7 +240,7 @@ impl SubCheck for C17 {
 }
 
 pub fn run(run: &Run) {
-    run.set_rule("histories: 2-4 versions of a source tree drawn from one pool of 3-10 items (each version keeps a subset and distributes it over files/crates in its own way: types are added, removed, moved between crates; one pool item uses () so Swift's Codable.swift comes and goes; a version may come with a typeshare.toml whose Swift settings change what Codable.swift has to contain), a run sequence of length 2-6 over the versions with repetitions, single-file or folder mode, one language. Every other run receives its per-file results in reverse arrival order (hook). After every run that exits 0, with every pre-existing output file back-dated to a fixed old instant: (a) each file a run of that version into an empty location creates exists with identical bytes; (b) each such file whose bytes were already there keeps its modification time and inode. Nothing is claimed about stale files of removed crates or after a failing run. Non-trivial = the sequence contains an immediate repeat and a change of version.");
+    run.set_rule("histories: 2-4 versions of a source tree drawn from one pool of 3-10 items (each version keeps a subset and distributes it over files/crates in its own way: types are added, removed, moved between crates; one pool item uses () so Swift's Codable.swift comes and goes; half of the pools hold two definitions whose names differ only in letter case; a version may come with a typeshare.toml whose Swift settings change what Codable.swift has to contain), a run sequence of length 2-6 over the versions with repetitions, single-file or folder mode, one language. Every other run receives its per-file results in reverse arrival order (hook). After every run that exits 0, with every pre-existing output file back-dated to a fixed old instant: (a) each file a run of that version into an empty location creates exists with identical bytes; (b) each such file whose bytes were already there keeps its modification time and inode. Nothing is claimed about stale files of removed crates or after a failing run. Non-trivial = the sequence contains an immediate repeat and a change of version.");
     run.assume("mtime is observed against a back-dated instant set with File::set_modified, so a rewrite is visible regardless of timestamp granularity");
     if !cli::bin_available() {
         run.inconclusive("typeshare binary not built");
